@@ -2,7 +2,6 @@ package eio
 
 import (
 	"strings"
-
 )
 
 // verifErrCode extracts the protocol error code of the response: natively from the JSON body, in the executor (where
